@@ -413,7 +413,7 @@ func (fc *FnCtx) fieldAddr(st *State, base Val, idx int, pos token.Pos) Val {
 // ---- indexing ----
 
 func (fc *FnCtx) addIdx(a, b string) string {
-	if fc.bv {
+	if fc.idxBV() {
 		if a == fc.idxLit(0) {
 			return b
 		}
@@ -425,19 +425,19 @@ func (fc *FnCtx) addIdx(a, b string) string {
 	return app("+", a, b)
 }
 func (fc *FnCtx) subIdx(a, b string) string {
-	if fc.bv {
+	if fc.idxBV() {
 		return app("bvsub", a, b)
 	}
 	return app("-", a, b)
 }
 func (fc *FnCtx) leIdx(a, b string) string {
-	if fc.bv {
+	if fc.idxBV() {
 		return app("bvsle", a, b)
 	}
 	return app("<=", a, b)
 }
 func (fc *FnCtx) ltIdx(a, b string) string {
-	if fc.bv {
+	if fc.idxBV() {
 		return app("bvslt", a, b)
 	}
 	return app("<", a, b)
@@ -453,7 +453,7 @@ func (fc *FnCtx) toIdx(v Val) string {
 
 func (fc *FnCtx) inBounds(i, n string, v Val) string {
 	// 0 <= i < n with i already converted to index sort; for unsigned sources wider semantics:
-	if fc.bv && isUnsigned(v.Ty) && intWidth(v.Ty) == 64 {
+	if fc.idxBV() && isUnsigned(v.Ty) && intWidth(v.Ty) == 64 {
 		return app("bvult", i, n)
 	}
 	return and(fc.leIdx(fc.idxLit(0), i), fc.ltIdx(i, n))
@@ -471,6 +471,9 @@ func (fc *FnCtx) evalIndex(st *State, x *ast.IndexExpr, commaOk bool) []Val {
 		if _, isSig := tv.Type.Underlying().(*types.Signature); isSig {
 			return fc.eval(st, x.X)
 		}
+	}
+	if v, ok := fc.tableRead(st, x); ok {
+		return []Val{v}
 	}
 	base := fc.eval1(st, x.X)
 	bt := base.Ty.Underlying()
@@ -735,3 +738,38 @@ func (fc *FnCtx) chanRecv(st *State, x *ast.UnaryExpr) []Val {
 
 var _ = constant.MakeInt64
 var _ = big.NewInt
+
+// tableRead: a read of a package-level constant table declared with `//@ table`.
+func (fc *FnCtx) tableRead(st *State, x *ast.IndexExpr) (Val, bool) {
+	id, ok := ast.Unparen(x.X).(*ast.Ident)
+	if !ok {
+		return Val{}, false
+	}
+	v, ok := fc.info().ObjectOf(id).(*types.Var)
+	if !ok || v.Pkg() == nil || v.Parent() != v.Pkg().Scope() {
+		return Val{}, false
+	}
+	cs := fc.eng.contractsForPkg(v.Pkg())
+	if cs == nil {
+		return Val{}, false
+	}
+	tb, ok := cs.Tables[v.Name()]
+	if !ok {
+		return Val{}, false
+	}
+	at, ok := v.Type().Underlying().(*types.Array)
+	if !ok {
+		return Val{}, false
+	}
+	iv := fc.eval1(st, x.Index)
+	if iv.K != nil && (iv.T == "" || isUntyped(iv.Ty)) {
+		iv = fc.coerce(iv, tInt)
+	}
+	env := &SpecEnv{fc: fc, cur: st, old: st, bound: map[string]Val{tb.Var: iv}, home: cs, homePkg: v.Pkg()}
+	if fc.inSpec == 0 {
+		fc.assert(st, env.evalBool(tb.Guard), "bounds", "table index in range: "+tb.Text, x.Pos())
+	}
+	val := fc.assignConvSpec(env.eval(tb.Value), at.Elem())
+	fc.externsUsed["constant table "+v.Name()+" ("+tb.Text+"): established by init (proved), never written elsewhere (frame obligations); in-range index conversion is value preserving"] = true
+	return val, true
+}
